@@ -82,6 +82,11 @@ def const_truth(F, e):
 
 
 def run(ctx):
+    _run_main(ctx)
+    existing_builtin_always_asserted(ctx)
+
+
+def _run_main(ctx):
     F = ctx.facts
     ctx.explanation = ("Upgrade wiring: the previous→target migration is dispatched by reload_domain_info_version and by the bootstrap match, it applies "
                        "every phase function of one data module, and every entry/schema static of that module is referenced from its phase functions.")
@@ -236,3 +241,27 @@ def run(ctx):
                   "the domain level is raised, so a built-in entry of the target level can be missing after a 'successful' upgrade",
                   file=bf["file"], line=tf[0].get("line"))
     ctx.exhaustive = True
+
+
+# ---------------------------------------------------------------------------------------------------------------------
+# On an upgrade the built-in entries already exist, so "every built-in entry carries every value its definition specifies"
+# rests on one branch: internal_migrate_or_create_ignore_attrs asserts the definition onto the existing entry
+# (gen_modlist_assert -> internal_modify). Every success exit of that function must be the create or that modify; a shortcut
+# that returns Ok without the modify can leave a definition value missing. (added after seeded change C48: "skip the no-op
+# modify" test that walked the database entry's attributes and so never noticed a definition attribute absent from it)
+
+def existing_builtin_always_asserted(ctx):
+    R = "K3-existing-builtin-asserted"
+    f = ctx.fn1(LIB, r"^kanidmd_lib::server::migrations::<impl server::QueryServerWriteTransaction<'_>>::internal_migrate_or_create_ignore_attrs$")
+    oks = [n for n in walk(f["body"], into_closures=False)
+           if n.get("e") == "call" and (n.get("ctor") or "").endswith("core::result::Result::Ok") and not n.get("exp")]
+    ctx.check(not oks, R, f["fn"], "no-success-without-create-or-modify", "success only as the result of internal_create / internal_modify",
+              f"internal_migrate_or_create_ignore_attrs has an explicit `Ok(..)` exit (line {oks[0].get('line') if oks else '?'}): an existing built-in entry can be "
+              "declared up to date without its definition being asserted onto it, so a value the current definition specifies (e.g. a default member an "
+              "administrator removed) may be missing after a 'successful' upgrade", file=f["file"], line=oks[0].get("line") if oks else None)
+    mods = [c for c in all_calls(f["body"]) if is_call_to(c, "internal_modify")]
+    asserts = [c for c in all_calls(f["body"]) if is_call_to(c, "gen_modlist_assert")]
+    creates = [c for c in all_calls(f["body"]) if is_call_to(c, "internal_create")]
+    ctx.check(bool(mods) and bool(asserts) and bool(creates), R, f["fn"], "create-or-assert-paths-present",
+              "internal_create for a missing entry; gen_modlist_assert + internal_modify for an existing one",
+              "the create / assert-modify paths of internal_migrate_or_create_ignore_attrs were not found (shape not understood)", file=f["file"], line=f["line"])
